@@ -394,6 +394,11 @@ func genMatcher(r *rand.Rand, depth int) []string {
 		or := append(append([]string{"or", "2"}, inner...), "any")
 		return append([]string{"and", "2", "pv", "ver", "2", "v1", "v2"}, or...)
 	}
+	if depth == 0 && r.Intn(12) == 0 {
+		// And(pv sub, Or(Hosts({sub}.never.example), any)): a Hosts member with a domain parameter named like the
+		// parameter an earlier member captured rejects (known finding F28)
+		return []string{"and", "2", "pv", "sub", "2", "v1", "v2", "or", "2", "hosts", "1", "{sub}.never.example", "any"}
+	}
 	switch x := r.Intn(10); {
 	case x < 2:
 		return []string{"any"}
